@@ -897,6 +897,28 @@ func (c *ExprCtx) call(x CCall) TV {
 				c.fail("ghost(name)")
 			}
 			return TV{V: e.get(c.st, "ghost:"+n.Name, SBool), Typ: types.Typ[types.Bool]}
+		case "dyndata":
+			// dyndata(x): the data word of an interface value (for a boxed pointer: the pointer)
+			tv := c.expr(x.Args[0])
+			iv, ok := tv.V.(*IfaceV)
+			if !ok {
+				c.fail("dyndata on non-interface")
+			}
+			return TV{V: iv.Data}
+		case "dynptr":
+			// dynptr(x, *pkg.Type): the pointer boxed in interface value x, viewed as *pkg.Type
+			// (meaningful where typeis(x, *pkg.Type) holds)
+			tv := c.expr(x.Args[0])
+			iv, ok := tv.V.(*IfaceV)
+			if !ok {
+				c.fail("dynptr on non-interface")
+			}
+			tt := c.typeExpr(x.Args[1])
+			pt, ok := under(tt).(*types.Pointer)
+			if !ok {
+				c.fail("dynptr needs a pointer type")
+			}
+			return TV{V: &PtrV{A: Addr{Kind: ARef, Base: iv.Data}, Elem: pt.Elem()}, Typ: tt}
 		case "typeis":
 			// typeis(x, pkg.Type): dynamic type test on an interface value
 			tv := c.expr(x.Args[0])
